@@ -470,7 +470,7 @@ def run(ctx):
                    "an explicit retries=None at request level together with a constructor-level policy is not enumerated (the documentation reads both ways)",
                    "single-host pools are given absolute-URL and absolute-path Locations only (reference resolution is promised for PoolManager)",
                ],
-               vacuity=[
+               vacuity=[(ok or bool(acc.viol), msg) for ok, msg in [   # a run that already reports violations is not "vacuous"
                    (c["nontrivial"] > 1000, "too few non-trivial cases"),
                    (all(c["followed_status_%d" % s] > 0 for s in statuses_f1), "a 3xx code was never followed"),
                    (all(c["followed_form_" + f] > 0 for f in G.FORMS if f not in G.TERMINAL_FORMS), "a Location form was never followed"),
@@ -481,7 +481,7 @@ def run(ctx):
                    (c["https_requests"] > 0 and c["via_tunnel"] > 0, "no https / tunnelled request observed"),
                    (c["either_empty_location_returned"] > 0, "empty Location never exercised"),
                    (c["non_redirect_3xx_answered"] > 0, "300/304 never exercised"),
-               ])
+               ]])
 
 
 def replay(case):
